@@ -577,6 +577,23 @@ func (s *syncer) resolveBisyncCheckpointNameWithClient(cli client.Redis, ids []s
 		return "", err
 	}
 	if seed != nil {
+		// A root checkpoint newer than the mode-specific state (a full sync that
+		// finished after the last committed unit) is what bisyncStartPoint resumes
+		// from; the new namespace must not fall behind it.
+		cpi, _, err := checkpoint.GetCheckpoint(cli, cpName, ids)
+		if err != nil {
+			return "", err
+		}
+		// GetCheckpoint leaves the connection in the last database it visited
+		if err := redis.SelectDB(cli, 0); err != nil {
+			return "", err
+		}
+		if cpi != nil && cpi.RunId != "?" && cpi.Offset > seed.Offset && checkpoint.MatchBisyncRunID(cpi.RunId, ids) {
+			seed, err = checkpoint.NewBisyncNamespaceSeedFromCheckpoint(cpi, seed.Slot)
+			if err != nil {
+				return "", err
+			}
+		}
 		// Once the checkpoint hash is repointed, the new namespace must be readable
 		// through the current source run IDs instead of the historical one that
 		// produced the old authoritative state.
